@@ -48,13 +48,21 @@ WORM_GEAR_AND_WHEEL_AVAILABLE_PRESSURE_ANGLES = [
 ]
 
 
+def _tabulated_pressure_angle(pressure_angle: Angle) -> float:
+    for available_pressure_angle in \
+            WORM_GEAR_AND_WHEEL_AVAILABLE_PRESSURE_ANGLES:
+        if available_pressure_angle == pressure_angle:
+            return available_pressure_angle.value
+    return pressure_angle.to('deg').value
+
+
 def worm_gear_and_wheel_maximum_helix_angle_function(
         pressure_angle: Angle
 ) -> Angle:
     return Angle(
         value=float(
             WORM_GEAR_AND_WHEEL_DATA.set_index('Pressure Angle').loc[
-                pressure_angle.to('deg').value,
+                _tabulated_pressure_angle(pressure_angle),
                 'Maximum Helix Angle'
             ]
         ),
@@ -64,7 +72,7 @@ def worm_gear_and_wheel_maximum_helix_angle_function(
 
 def worm_wheel_lewis_factor_function(pressure_angle: Angle) -> Angle:
     return WORM_GEAR_AND_WHEEL_DATA.set_index('Pressure Angle').loc[
-        pressure_angle.to('deg').value,
+        _tabulated_pressure_angle(pressure_angle),
         'Lewis Factor'
     ]
 
